@@ -5,6 +5,7 @@ directories, each with the loader's files that lie directly in it) satisfies eve
 -/
 import ArvVerif.Proofs.C09_Wf
 import ArvVerif.Proofs.C09_Glue
+import ArvVerif.Proofs.C09_Dirs
 namespace ArvVerif.C09
 
 open ArvVerif.C08 (Seg FileNode)
@@ -77,5 +78,56 @@ theorem groupTree_ok (tr : FsTree) (hw : FsWf tr) (hc : Cover tr) :
     rcases List.mem_cons.mp hp with rfl | hp
     · cases hcm
     · exact (hw.dirComps p hp).2 c hcm
+
+theorem ParentFirst.parent {ds : List (List Bytes)} (h : ParentFirst ds) : ∀ d ∈ ds, d.dropLast = [] ∨ d.dropLast ∈ ds := by
+  induction h with
+  | nil => intro d hd; cases hd
+  | snoc ds d _ hd ih =>
+    intro x hx
+    rcases List.mem_append.mp hx with hx | hx
+    · rcases ih x hx with h' | h'
+      · exact Or.inl h'
+      · exact Or.inr (List.mem_append_left _ h')
+    · rw [List.mem_singleton.mp hx]
+      rcases hd with h' | h'
+      · exact Or.inl h'
+      · exact Or.inr (List.mem_append_left _ h')
+
+/-- the canonical list is closed and no file of it has the path of a directory -/
+theorem groupTree_closed (tr : FsTree) (hw : FsWf tr) :
+    TreeClosed (groupTree tr) ∧ ∀ d ∈ groupTree tr, ∀ f ∈ d.files, d.path ++ [f.1] ∉ dirPaths (groupTree tr) := by
+  refine ⟨⟨?_, ?_⟩, ?_⟩
+  · intro d hd hne
+    obtain ⟨p, hp, rfl⟩ := List.mem_map.mp hd
+    rw [dirPaths_groupTree]
+    rcases List.mem_cons.mp hp with rfl | hp
+    · exact absurd rfl hne
+    · show p.dropLast ∈ ([] : List Bytes) :: tr.dirs
+      rcases hw.parentFirst.parent p hp with h' | h'
+      · rw [h']; simp
+      · exact List.mem_cons_of_mem _ h'
+  · intro d hd hsub
+    obtain ⟨p, hp, rfl⟩ := List.mem_map.mp hd
+    have hsub' : 0 < (tr.dirs.filter (fun d => d.dropLast = p)).length := hsub
+    obtain ⟨c, hc⟩ := List.exists_mem_of_length_pos hsub'
+    obtain ⟨hc1, hc2⟩ := List.mem_filter.mp hc
+    have hcne := (hw.dirComps c hc1).1
+    refine ⟨_, List.mem_map.mpr ⟨c, List.mem_cons_of_mem _ hc1, rfl⟩, c.getLastD [], ?_⟩
+    show c = p ++ [c.getLastD []]
+    rw [← of_decide_eq_true hc2]
+    exact (path_split c hcne).symm
+  · intro d hd f hf hm
+    obtain ⟨p, _, rfl⟩ := List.mem_map.mp hd
+    obtain ⟨e, he, rfl⟩ := List.mem_map.mp hf
+    obtain ⟨he1, he2⟩ := List.mem_filter.mp he
+    have hk : e.1 ∈ keysOf tr := List.mem_map.mpr ⟨e, he1, rfl⟩
+    have hne := (hw.keyComps e.1 hk).1
+    have hkey : p ++ [e.1.getLastD []] = e.1 := by
+      rw [← of_decide_eq_true he2]; exact path_split e.1 hne
+    rw [dirPaths_groupTree] at hm
+    have hm' : e.1 ∈ ([] : List Bytes) :: tr.dirs := by rw [← hkey]; exact hm
+    rcases List.mem_cons.mp hm' with h' | h'
+    · exact hne h'
+    · exact hw.disjoint e.1 hk h'
 
 end ArvVerif.C09
